@@ -36,7 +36,10 @@ RULE = (
     "referent was transferred is a failure, fixed minimal cases of the session-3 defects; X4 also compares the owner of restored block content; X5: the real "
     "map_resources of every registered copyable entity type that can be instantiated from attributes (54+ types) on generated values of every declared handle "
     "attribute (absent / '0' / copied / not copied) and name attribute (absent / mapped in another letter case / chained / unknown) with a real _Transfer vs "
-    "mapAttrs / mapNames over the extracted events (values taken from target objects and statements under undecided tests match anything)."
+    "mapAttrs / mapNames over the extracted events (values taken from target objects and statements under undecided tests match anything). "
+    "Follow-up: X6 = the decisions of real Loader runs judged by the proven checker of PolicySpec (case variants of every source name in the targets); "
+    "oracle: Importer table-entry closure by name (every handle / name inside a new LTYPE / LAYER / STYLE / DIMSTYLE entry refers to the target entry of the "
+    "same name), indirectly used resources, targets saved and reloaded before the transfer, the target's own underlay / image definitions."
 )
 TRUSTED_BASE = [
     "hand model Model/Xref.lean of xref.py (validated by X1-X4, not proved)",
@@ -343,6 +346,66 @@ def regenerate_overrides(ctx):
             raise ValueError(f"{cname}.{meth}: the call of the R12 (name based) override branch was not found: revisit the gate theorems")
         return g["lean"]
 
+    # Underlay.map_underlay_def: is the generated dictionary key tested against the dictionary it is stored in?
+    # key = doc.objects.next_underlay_key(lambda k: k not in D) ... D.take_ownership(key, copy)
+    ut = _ast.parse(ctx.src("src/ezdxf/entities/underlay.py"))
+    fn = next((n for n in _ast.walk(ut) if isinstance(n, _ast.FunctionDef) and n.name == "map_underlay_def"), None)
+    if fn is None:
+        raise ValueError("Underlay.map_underlay_def not found: revisit the generated-key model (nextKey)")
+    calls = [n for n in _ast.walk(fn) if isinstance(n, _ast.Call) and isinstance(n.func, _ast.Attribute)]
+    nk = [c for c in calls if c.func.attr == "next_underlay_key"]
+    own = [c for c in calls if c.func.attr == "take_ownership" and isinstance(c.func.value, _ast.Name)]
+    if len(nk) != 1 or len(own) != 1:
+        raise ValueError("Underlay.map_underlay_def: expected one next_underlay_key() and one <dict>.take_ownership(): revisit the model")
+    dname = own[0].func.value.id
+    key_checked = any(isinstance(a, _ast.Lambda) and isinstance(a.body, _ast.Compare) and len(a.body.ops) == 1
+                      and isinstance(a.body.ops[0], _ast.NotIn) and isinstance(a.body.comparators[0], _ast.Name)
+                      and a.body.comparators[0].id == dname for a in list(nk[0].args) + [k.value for k in nk[0].keywords])
+    osrc = ctx.src("src/ezdxf/sections/objects.py")
+    if "def next_underlay_key(self, checkfunc=lambda k: True)" not in osrc or "if checkfunc(key):" not in osrc:
+        raise ValueError("ObjectsSection.next_underlay_key changed: revisit Model/Xref.lean nextKeyIndex")
+    # Importer add-on: the order in which finalize() imports the tables, and which tables the import of a table entry adds
+    # requirements to (import_table: `self.used_X.add(...)` directly or in the helper it calls for that table)
+    TBL = {"dimstyles": 0, "layers": 1, "linetypes": 2, "styles": 3, "shape_files": 4, "arrows": 5}
+    it = _ast.parse(ctx.src("src/ezdxf/addons/importer.py"))
+    icls = next(n for n in it.body if isinstance(n, _ast.ClassDef) and n.name == "Importer")
+    meth = {n.name: n for n in icls.body if isinstance(n, _ast.FunctionDef)}
+
+    def used_adds(fn, depth=0):
+        out = []
+        for n in _ast.walk(fn):
+            if isinstance(n, _ast.Call) and isinstance(n.func, _ast.Attribute):
+                f = n.func
+                if f.attr == "add" and isinstance(f.value, _ast.Attribute) and f.value.attr.startswith("used_") and isinstance(f.value.value, _ast.Name):
+                    out.append(f.value.attr[len("used_"):])
+                elif isinstance(f.value, _ast.Name) and f.value.id == "self" and f.attr in meth and f.attr.startswith("_add_") and depth < 2:
+                    out += used_adds(meth[f.attr], depth + 1)
+        return out
+
+    order = []
+    for st in meth["_import_required_table_entries"].body:
+        for n in _ast.walk(st):
+            if isinstance(n, _ast.Call) and isinstance(n.func, _ast.Attribute) and isinstance(n.func.value, _ast.Name) and n.func.value.id == "self":
+                if n.func.attr == "import_table" and n.args and isinstance(n.args[0], _ast.Constant):
+                    order.append(n.args[0].value)
+                elif n.func.attr == "import_shape_files":
+                    order.append("shape_files")
+    adds = []
+    for n in _ast.walk(meth["import_table"]):
+        if isinstance(n, _ast.If):
+            cur = n
+            while isinstance(cur, _ast.If):
+                t = cur.test
+                if (isinstance(t, _ast.Compare) and isinstance(t.left, _ast.Name) and t.left.id == "name" and len(t.ops) == 1
+                        and isinstance(t.ops[0], _ast.Eq) and isinstance(t.comparators[0], _ast.Constant)):
+                    tab = t.comparators[0].value
+                    for b in cur.body:
+                        for tgt_tab in used_adds(b):
+                            if (tab, tgt_tab) not in adds:
+                                adds.append((tab, tgt_tab))
+                cur = cur.orelse[0] if len(cur.orelse) == 1 and isinstance(cur.orelse[0], _ast.If) else None
+    if not order or not adds or any(x not in TBL for x in order) or any(a not in TBL or b not in TBL for a, b in adds):
+        raise ValueError(f"Importer table import: order {order} / requirement edges {adds} not understood: revisit importer_order_closed")
     # the branch `register_override_handles` / `register_resources_r12` is an if/else: gate of the r12 branch only
     names_tbl = ", ".join(f'"{n}"' for n, _ in sorted(attr_ids.items(), key=lambda kv: kv[1]))
     doc_ex = "\n".join(f"    {t}: {sorted(v[0])} -- {v[1]}" for t, v in sorted(PTR_EXCEPTIONS.items()))
@@ -385,6 +448,16 @@ def dimensionMapsOverrideNames (sver tver : Nat) : Bool := {gate("Dimension", "m
 def dimensionRegistersOverrideNames (sver tver : Nat) : Bool := {gate("Dimension", "register_resources")}
 def leaderMapsOverrideNames (sver tver : Nat) : Bool := {gate("Leader", "map_resources")}
 def leaderRegistersOverrideNames (sver tver : Nat) : Bool := {gate("Leader", "register_resources")}
+
+/-- Importer add-on (table ids: {", ".join(f"{v}={k}" for k, v in TBL.items())}): the order in which
+    `_import_required_table_entries` imports the tables, and the edges (a, b) "importing an entry of table a adds required entries
+    to table b" found in `import_table` (`self.used_b.add(..)` directly or through the `_add_*_resources` helper of that branch) -/
+def importerOrder : List Nat := [{", ".join(str(TBL[x]) for x in order)}]
+def importerAdds : List (Nat × Nat) := [{", ".join(f"({TBL[a]}, {TBL[b]})" for a, b in adds)}]
+
+/-- `Underlay.map_underlay_def` hands `next_underlay_key` a check function `lambda k: k not in <the dictionary the key is stored in>`
+    (extracted from the AST; `false` = the key comes unchecked from the per-document counter) -/
+def underlayKeyChecked : Bool := {str(key_checked).lower()}
 
 end EzdxfVerif.Gen.XrefOverrides
 """
@@ -441,7 +514,10 @@ FEATURES = ["layers", "blocks", "nested", "attribs", "xdata", "xdict", "reactors
             "case_variant", "dimblk", "layer_material", "insert_in_xdata", "tolerance", "shape", "xdata_into_block", "adsk_layer",
             # session 3: name chains (a source that already holds "$0$NAME" / "<xref>$0$NAME" twins), handles / xdict / reactors /
             # draw order inside block content, soft-owner dictionaries, dictionary with default, 3DSOLID history, viewport frozen layers
-            "chain", "blk_refs", "softdict", "sortents", "dictdflt", "solid3d", "vp_frozen"]
+            "chain", "blk_refs", "softdict", "sortents", "dictdflt", "solid3d", "vp_frozen",
+            # follow-up: resources that are used only INDIRECTLY (text style of a complex linetype that only a LAYER uses, text style
+            # that only a DIMSTYLE uses): the closure of the table entries, not of the entities, brings them along
+            "indirect"]
 # features that a DXF R12 source document supports
 R12_FEATURES = ["layers", "blocks", "nested", "attribs", "xdata", "dim", "dimblk", "case_variant", "paperspace", "insert_in_xdata",
                 "xdata_into_block", "adsk_layer", "reactors", "chain", "blk_refs"]
@@ -517,6 +593,15 @@ def build_source(version: str, feats, rng, filename: str | None = None, overlap:
         hist = doc.objects.add_placeholder(owner=doc.rootdict.dxf.handle)   # stands for the history object; never loaded
         doc.rootdict.add("VHISTORY", hist)
         sol.dxf.history_handle = hist.dxf.handle
+    if "indirect" in f:
+        doc.styles.add("TSI", font="arial.ttf")
+        doc.linetypes.add("GASI", pattern='A,.5,-.2,["GAS",TSI,S=.1,U=0.0,X=-0.1,Y=-.05],-.25', length=0.95)
+        doc.layers.add("LI", linetype="GASI", color=2)
+        msp.add_line((0, 0), (2, 2), dxfattribs={"layer": "LI"})            # linetype BYLAYER
+        doc.styles.add("TSD", font="isocp.shx")
+        dsi = doc.dimstyles.new("DSI")
+        dsi.dxf.dimtxsty = "TSD"
+        msp.add_linear_dim(base=(0, 3), p1=(0, 1), p2=(3, 1), dimstyle="DSI").render()
     if "adsk_layer" in f:
         doc.layers.add("*ADSK_VERIF")   # Autodesk special layer (leading asterisk)
         msp.add_circle((7, 7), 0.5, dxfattribs={"layer": "*ADSK_VERIF"})
@@ -689,7 +774,7 @@ def build_source(version: str, feats, rng, filename: str | None = None, overlap:
 
 
 CLASH = ["layer", "ltype", "style", "dimstyle", "block", "material", "mlinestyle", "mleaderstyle", "num0", "nested_block",
-         "appid", "layout", "arrow", "imagedef", "dimblock", "upper", "xrefnum0"]
+         "appid", "layout", "arrow", "imagedef", "dimblock", "upper", "xrefnum0", "underlaydef"]
 
 
 def build_target(version: str, clash, rng, xref_name: str = ""):
@@ -717,14 +802,19 @@ def build_target(version: str, clash, rng, xref_name: str = ""):
         doc.blocks.new("B_B").add_circle((0, 0), 8)
     if "arrow" in c:
         doc.blocks.new("MYARROW").add_circle((0, 0), 7)
+    if "underlaydef" in c and version != "R12":
+        # the target's own underlay definitions (auto-generated dictionary keys Underlay00001, ...)
+        for kind, fn in (("pdf", "own.pdf"), ("dwf", "own.dwf")):
+            udef = doc.add_underlay_def(fn, kind, "1")
+            msp.add_underlay(udef, (1, 1))
     if "material" in c:
-        doc.materials.new("M1")
+        doc.materials.new(up("M1"))
     if "mlinestyle" in c:
-        ms = doc.mline_styles.new("MLS1")
+        ms = doc.mline_styles.new(up("MLS1"))
         ms.elements.append(1.0, 3)
         ms.elements.append(-1.0, 3)
     if "mleaderstyle" in c:
-        doc.mleader_styles.duplicate_entry("Standard", "MLD1")
+        doc.mleader_styles.duplicate_entry("Standard", up("MLD1"))
     if "appid" in c:
         doc.appids.add("VAPP")
     if "layout" in c:
@@ -901,7 +991,7 @@ class Capture:
 
 
 OPS = ["msp", "msp_filter", "psp", "loader_mix", "block_into", "resources", "write_block", "detach_embed", "importer"]
-IMPORTER_FEATURES = ["adsk_layer", "layers", "blocks", "nested", "attribs", "xdata", "xdict", "reactors", "group", "dim", "hatch", "leader",
+IMPORTER_FEATURES = ["indirect", "adsk_layer", "layers", "blocks", "nested", "attribs", "xdata", "xdict", "reactors", "group", "dim", "hatch", "leader",
                      "polyline", "text", "complex_ltype", "case_variant", "dimblk", "layer_material", "material", "shape", "paperspace"]
 
 
@@ -1227,6 +1317,42 @@ class Analysis:
         self.finish_deferred(sig, sb, ta)
         return sig
 
+    def importer_tables(self, sb: Snap, tb: Snap | None, ta: Snap):
+        """resource closure of the table entries the Importer add-on brought along (it keeps names, an existing target entry wins):
+        every handle and every name inside a NEW table entry refers to the target's entry of the SAME name as the source's referent
+        (linetype pattern -> text style / shape file, dimstyle -> text style / arrow blocks / linetypes, layer -> linetype)"""
+        old = tb.recs if tb else {}
+        sig = {}
+        for T in TABLE_ATTR:
+            tn = ta.names(T)
+            for name, sh in sb.names(T).items():
+                if name and name in tn:
+                    sig[sh] = tn[name]
+        # shape-file entries (STYLE without name) correspond by font file
+        def shx(snap):
+            return {str(next((v for c, v in snap.recs[h] if c == 3), "")).lower(): h for h, t in snap.table_of.items()
+                    if t == "STYLE" and snap.name_of(h) == ""}
+        ts = shx(ta)
+        for font, sh in shx(sb).items():
+            if font in ts:
+                sig[sh] = ts[font]
+        for tname, h in sb.table_head.items():
+            if tname in ta.table_head:
+                sig[h] = ta.table_head[tname]
+        self.anchor_map, self.old, self.image, self.work, self.deferred = {}, old, set(sig.values()), [], []
+        self.layout_names_before = set()
+        # documented: an imported table entry gets the plot style "Normal" and the material "Global" of the TARGET
+        self.target_defaults = TARGET_DEFAULT_POINTERS | {("LAYER", 347)}
+        name_ok = lambda sv, tv: sv.lower() == tv.lower()
+        for T in ("LTYPE", "LAYER", "STYLE", "DIMSTYLE"):
+            for name, sh in sorted(sb.names(T).items()):
+                th = sig.get(sh)
+                if th is None or th in old or th not in ta.recs:
+                    continue
+                self.stat("importer-table-entry/" + T)
+                self.compare(sh, th, T, sb.recs[sh], ta.recs[th], sig, sb, ta, name_ok)
+        self.finish_deferred(sig, sb, ta)
+
     @staticmethod
     def collapse(rec):
         """runs of >= 2 consecutive pointer tags with the same code (reactors, boundary handles, group members) are
@@ -1382,7 +1508,7 @@ class Analysis:
                             continue  # owner of a loaded entity: the layout it was loaded into
                         if typ in ("VERTEX", "ATTRIB", "SEQEND") and c == 330 and t in ta.children.get(tvn, ()):
                             continue  # sub-entity owned by its parent (ezdxf writes either the parent or the parent's owner)
-                        if (typ, c) in TARGET_DEFAULT_POINTERS:
+                        if (typ, c) in getattr(self, "target_defaults", TARGET_DEFAULT_POINTERS):
                             continue  # deliberately reset to the target's own default object by the code
                         if svn in sb.recs and int(svn, 16) >= SRC_BASE and tvn == svn:
                             continue  # reported as leak by the whole-file scan
@@ -1613,6 +1739,15 @@ def gen_case(rng, i: int):
     extra = [x for x in ("chain", "blk_refs") if rng.random() < 0.35]
     if extra and op != "importer":
         spec["feats"] = sorted(set(feats) | set(extra) | {"blocks"})
+    # follow-up (drawn after everything else): indirectly used resources; a target that was saved and loaded again before the
+    # transfer (counters of a loaded document start again: underlay keys, anonymous block names, handles)
+    if (op == "importer" or rng.random() < 0.25) and spec["sver"] != "R12":
+        spec["feats"] = sorted(set(spec["feats"]) | {"indirect"})
+    spec["reload_target"] = rng.random() < 0.35
+    if {"underlay", "image"} & set(spec["feats"]) and rng.random() < 0.6:
+        # definition dictionaries with generated keys: the target already holds definitions of its own and was loaded from a file
+        spec["clash"] = sorted(set(spec["clash"]) | {"underlaydef", "imagedef"})
+        spec["reload_target"] = True
     if "solid3d" in spec["feats"] and not (sver in ("R2007", "R2010") and tver in ("R2007", "R2010")):
         spec["feats"] = [x for x in spec["feats"] if x != "solid3d"]   # SAT data is exported for R2007 / R2010 only
     if r12 and op in R12_OPS:
@@ -1737,6 +1872,12 @@ def run_case(spec, tmpdir=None):
         tgt = None
         if op not in ("write_block", "detach_embed"):
             tgt = build_target(spec["tver"], spec["clash"], rng, xname)
+            if spec.get("reload_target") and spec["tver"] != "R12":
+                # the target as an application meets it: saved and loaded again before the transfer (not DXF R12: a file of that
+                # version cannot hold the additional layouts of the generated target, the reloaded document fails its own audit)
+                buf = io.StringIO()
+                tgt.write(buf)
+                tgt = __import__("ezdxf").read(io.StringIO(buf.getvalue()))
         Snap(src)  # warm-up export: export itself may normalise attributes of the source
         sb = Snap(src)
         tb = snap_of(tgt) if tgt is not None else None
@@ -1757,9 +1898,10 @@ def run_case(spec, tmpdir=None):
                     raise
                 report(f"crash/{type(e).__name__}/{site}/importer", f"Importer raised {type(e).__name__}: {e} at {site}")
                 return fails, an.stats, None
-            sa, ta = Snap(src), Snap(tgt)
+            sa, ta = Snap(src), snap_of(tgt)
             an.source_unchanged(sb, sa)
             an.target_valid(tgt, tb, ta, sb)
+            an.importer_tables(Snap(src, as_version=ta.version) if ta.version != src.dxfversion else sa, tb, ta)
             fails[:] = [("importer/" + k, w) for k, w in fails]
             return fails, an.stats, None
         with Capture() as cap:
@@ -1959,8 +2101,12 @@ def corr_unique(ctx, cases):
             ctx.hist("X2 unique names", f"dict/{min(k, 9)}")
 
 
+SPEC_CASES: list = []
+
+
 def corr_policy(ctx, cases):
     """X3: the conflict-policy decisions of a real Loader run over generated name sets"""
+    del SPEC_CASES[:]
     import ezdxf
     from ezdxf import xref
     from ezdxf.xref import ConflictPolicy, Loader
@@ -2016,6 +2162,10 @@ def corr_policy(ctx, cases):
         for nm in list(snames):
             if rng.random() < 0.3:
                 tnames.append(f"{xr if policy == 'XREF_PREFIX' else ''}$0${nm}")
+        # the target holds the same name in ANOTHER letter case (names are case-insensitive in every kind of container)
+        for nm in list(snames):
+            if rng.random() < 0.3 and nm.swapcase() != nm:
+                tnames.append(nm.swapcase())
         try:
             for nm in tnames:
                 if kind == "block":
@@ -2110,6 +2260,18 @@ def corr_policy(ctx, cases):
         clash = any(n.lower() in [b.lower() for b, _ in before] for n, _ in seq)
         cases.append((req, impl, clash or policy == "XREF_PREFIX"))
         ctx.hist("X3 policy", f"{kind}/{policy}")
+        # X6: the same real decisions handed to the proven checker of the abstract PolicySpec (no hand model in between); names the
+        # special-case front ends treat differently (special layers, default linetypes, anonymous blocks, system entries) are left out
+        low = [n.lower() for n, _ in seq]
+        special = {"layer": lambda n: n in ("0", "defpoints") or n.startswith("*"), "ltype": lambda n: n in ("continuous", "bylayer", "byblock"),
+                   "table": lambda n: False, "block": lambda n: n.startswith("*"), "material": lambda n: n in ("global", "bylayer", "byblock"),
+                   "standard": lambda n: n == "standard"}[kind]
+        if not any(special(n) for n in low) and "E" not in decs:
+            keys6 = ";".join(cps(k.lower()) for k, _ in before)
+            SPEC_CASES.append((f"sr|{policy}|{cps(xr)}|{keys6}|{';'.join(f'{cps(n)}:{d}' for (n, _), d in zip(seq, decs))}", "ok",
+                               clash or policy == "XREF_PREFIX"))
+            ctx.hist("X6 policy spec on real decisions", f"{kind}/{policy}" + ("/case-variant" if any(
+                n in [b.lower() for b, _ in before] and nn not in [b for b, _ in before] for n, (nn, _) in zip(low, seq)) else ""))
     if skipped:
         ctx.hist("X3 policy", "skipped: name rejected by the table", skipped)
 
@@ -2420,6 +2582,8 @@ def correspond(ctx):
         cases = []
         fn(ctx, cases)
         ctx.correspond(name, "C17", cases, build=DRIVER_DEPS)
+        if fn is corr_policy:
+            ctx.correspond("X6 policy spec on real decisions", "C17", list(SPEC_CASES))
 
 
 # ================================================================== oracle
@@ -2428,6 +2592,8 @@ FIXED_CASES = [
     {"fixed": "f14"},
     # session 3, minimal inputs of the defects fixed by 1a82fa447 5066701a1 51cedc321 54dafdef4 (two plain ezdxf.new() documents)
     {"fixed": "block-content-once"}, {"fixed": "mlinestyle"}, {"fixed": "softdict"}, {"fixed": "vp-frozen"},
+    # follow-up: minimal inputs of the classes the seeded changes C17-m4 .. m6 belong to
+    {"fixed": "importer-indirect-style"}, {"fixed": "collection-case-variant"}, {"fixed": "reloaded-target-keys"},
 ]
 
 
@@ -2504,6 +2670,64 @@ def run_fixed(name):
         for k, v in soft.items():
             if getattr(v, "doc", None) is not tgt:
                 fails.append(("leak/DICTIONARY/350/soft-owner", f"entry {k!r} of the copied soft-owner DICTIONARY is {v} of the SOURCE document"))
+    if name == "importer-indirect-style":
+        # the text style of a complex linetype that only a LAYER uses (entities BYLAYER) must arrive with the linetype
+        from ezdxf.addons.importer import Importer
+
+        src, tgt = ezdxf.new(), ezdxf.new()
+        src.styles.add("TSI", font="arial.ttf")
+        src.linetypes.add("GASI", pattern='A,.5,-.2,["GAS",TSI,S=.1,U=0.0,X=-0.1,Y=-.05],-.25', length=0.95)
+        src.layers.add("LI", linetype="GASI")
+        src.modelspace().add_line((0, 0), (1, 1), dxfattribs={"layer": "LI"})
+        imp = Importer(src, tgt)
+        imp.import_modelspace()
+        imp.finalize()
+        lt = tgt.linetypes.get("GASI")
+        st = tgt.styles.get_entry_by_handle(lt.pattern_tags.get_style_handle())
+        if st is None or st.dxf.name != "TSI":
+            fails.append(("importer/wrong-pointer/LTYPE/340/indirect", f"imported complex linetype GASI: its text style handle refers to "
+                          f"{st.dxf.name if st is not None else 'nothing'!r}, the source uses 'TSI' (in target: {tgt.styles.has_entry('TSI')})"))
+    if name == "collection-case-variant":
+        # MATERIAL / MLINESTYLE / MLEADERSTYLE names are case-insensitive: one entry per name whatever the spelling
+        for pol in ("KEEP", "NUM_PREFIX"):
+            src, tgt = ezdxf.new(), ezdxf.new()
+            mat = src.materials.new("Steel")
+            src.modelspace().add_line((0, 0), (1, 1)).dxf.material_handle = mat.dxf.handle
+            wall = src.mline_styles.new("Wall")
+            wall.elements.append(0.5, 1)
+            wall.elements.append(-0.5, 1)
+            src.modelspace().add_mline([(0, 0), (1, 0)], dxfattribs={"style_name": "Wall"})
+            own = tgt.materials.new("steel")
+            tgt.mline_styles.new("WALL")
+            xref.load_modelspace(src, tgt, conflict_policy=getattr(xref.ConflictPolicy, pol))
+            for coll, nm in ((tgt.materials, "steel"), (tgt.mline_styles, "wall")):
+                same = [k for k, _ in coll if k.lower() == nm]
+                if len(same) != 1:
+                    fails.append((f"policy/{pol}/{coll.object_dict_name if hasattr(coll, 'object_dict_name') else nm}/case-variant-duplicate",
+                                  f"{pol}: the target holds {same} for the one case-insensitive name {nm!r}"))
+            ref = tgt.entitydb.get(tgt.modelspace()[0].dxf.material_handle)
+            if pol == "KEEP" and ref is not own:
+                fails.append(("policy/KEEP/MATERIAL/existing-not-used/case-variant", f"KEEP: the loaded LINE uses {ref}, the target's own 'steel' is {own}"))
+            if pol == "NUM_PREFIX" and (ref is own or ref.dxf.name != "$0$Steel"):
+                fails.append(("policy/NUM_PREFIX/MATERIAL/name-form/case-variant", f"NUM_PREFIX: the loaded LINE uses material {ref.dxf.name!r}"))
+    if name == "reloaded-target-keys":
+        # a target that was loaded from a file: counters start again, the dictionaries are filled
+        src, tgt0 = ezdxf.new("R2010"), ezdxf.new("R2010")
+        for d, fn in ((src, "sheet.pdf"), (tgt0, "own.pdf")):
+            d.modelspace().add_underlay(d.add_underlay_def(fn, "pdf", "1"), (0, 0))
+        buf = io.StringIO()
+        tgt0.write(buf)
+        tgt = ezdxf.read(io.StringIO(buf.getvalue()))
+        xref.load_modelspace(src, tgt)
+        defs = tgt.rootdict.get("ACAD_PDFDEFINITIONS")
+        files = sorted(v.dxf.filename for _, v in defs.items())
+        if files != ["own.pdf", "sheet.pdf"]:
+            fails.append(("target-entity-changed/DICTIONARY/350/underlay-key", f"ACAD_PDFDEFINITIONS of the reloaded target holds {files} after the transfer, "
+                                                                             f"expected its own definition and the copy"))
+        for u in tgt.modelspace():
+            ud = u.get_underlay_def()
+            if ud is None or defs.find_key(ud) == "":
+                fails.append(("dangling/PDFUNDERLAY/340/underlay-key", f"{u}: its definition {ud} is not an entry of ACAD_PDFDEFINITIONS"))
     if name == "vp-frozen":
         for pol, want in (("KEEP", ["L1", "L2"]), ("XREF_PREFIX", ["$0$L1", "$0$L2"])):
             src, tgt = ezdxf.new("R2010"), ezdxf.new("R2010")
